@@ -202,11 +202,21 @@ bool OPNMIDIplay::LoadMIDI_post()
     m_chipChannels.resize(synth.m_numChannels);
     resetMIDIDefaults();
 #ifdef OPNMIDI_MIDI2VGM
-    m_sequencerInterface->onloopStart = synth.m_loopStartHook;
-    m_sequencerInterface->onloopStart_userData = synth.m_loopStartHookData;
-    m_sequencerInterface->onloopEnd = synth.m_loopEndHook;
-    m_sequencerInterface->onloopEnd_userData = synth.m_loopEndHookData;
-    m_sequencer->setLoopHooksOnly(m_sequencerInterface->onloopStart != NULL);
+    if(synth.m_loopStartHook) // The VGM dumper takes the loop hooks over
+    {
+        m_sequencerInterface->onloopStart = synth.m_loopStartHook;
+        m_sequencerInterface->onloopStart_userData = synth.m_loopStartHookData;
+        m_sequencerInterface->onloopEnd = synth.m_loopEndHook;
+        m_sequencerInterface->onloopEnd_userData = synth.m_loopEndHookData;
+        m_sequencer->setLoopHooksOnly(true);
+    }
+    else // Any other chip: the hooks installed by the user stay in force
+    {
+        m_sequencerInterface->onloopStart = hooks.onLoopStart;
+        m_sequencerInterface->onloopStart_userData = hooks.onLoopStart_userData;
+        m_sequencerInterface->onloopEnd = hooks.onLoopEnd;
+        m_sequencerInterface->onloopEnd_userData = hooks.onLoopEnd_userData;
+    }
 #endif
 
     return true;
